@@ -25,6 +25,9 @@ AST
                                         "P" `("{?v1} == 1")`  (true until v1 has been modified; v1 starts as 1)
                                         "Q" `("{?v1} != 1")`  (true once v1 has been modified)
                                         "E" `@else` (only as last clause, never first)
+                                     Programs whose expression conditions are all P (all Q) are also rendered with
+                                     line 1 `v1 bool = true` (`false`) and the condition as the bare reference
+                                     `@case {?v1}`; modifications of v1 then write the negated value (Walk(root=)).
                                      end=1 writes the closing `@end`
 Every line is indented by two blanks per enclosing group/clause.
 """
@@ -204,7 +207,15 @@ class Walk:
     decision here - the renderer only has to make sure the *text* has exactly that reading under the statement's rule.
     """
 
-    def __init__(self, prog, gorder="asc"):
+    def __init__(self, prog, gorder="asc", root="int"):
+        """root: "int"   line 1 is `v1 int = 1`, P/Q are the expressions `("{?v1} == 1")` / `("{?v1} != 1")`
+                 "boolT" line 1 is `v1 bool = true`,  P is the bare reference `@case {?v1}` (no Q allowed)
+                 "boolF" line 1 is `v1 bool = false`, Q is the bare reference `@case {?v1}` (no P allowed)
+           In the bool variants a modification of v1 writes the negated initial value, so P (true until v1 is
+           modified) and Q (true once v1 is modified) keep their meaning; only the *form* of the condition differs."""
+        self.root = root
+        self.root_initial = {"int": 1, "boolT": True, "boolF": False}[root]
+        self.bare_refs = 0
         self.lines = []            # (indent, text)
         self.flat = []             # (flat kind, indent) per line: the same program in the E1 alphabet
         self.flat_ok = True        # False if a condition is an expression (no E1 letter for it)
@@ -231,6 +242,8 @@ class Walk:
             raise Invalid("condition/modification refers to v1 but line 1 is not a root definition")
         if self.ref_defs and self.root_modified:
             raise Invalid("reference definitions only in programs that never modify v1 (C17 territory)")
+        if root != "int" and not self.bare_refs:
+            raise Invalid("bool-root variant without a bare-reference condition (same as the int variant)")
 
     def _emit(self, ind, text, kind="n"):
         self.lines.append((ind, text))
@@ -246,13 +259,16 @@ class Walk:
                 name = "v%d" % ln
                 val = ln
                 if it[1] == 2:
-                    if self.root_def is None:
-                        raise Invalid("reference definition without v1")
+                    if self.root_def is None or self.root != "int":
+                        raise Invalid("reference definition without an integer v1")
                     self.lines[-1] = (ind, "%s int = {?%s}" % (name, self.root_def))
                     val = 1
                     self.uses_root = True
                     self.ref_defs = True
                     self.feat.add("reference-valued-definition")
+                elif top and pos == 0 and self.root != "int":
+                    val = self.root_initial
+                    self.lines[-1] = (ind, "%s bool = %s" % (name, "true" if val else "false"))
                 else:
                     self.lines[-1] = (ind, "%s int = %d" % (name, ln))
                 full = ".".join(gpath + (name,))
@@ -288,12 +304,17 @@ class Walk:
                     self.uses_root = True
                 rel = ".".join(tgt[0][len(gpath):] + (tgt[1],))
                 ln = self._emit(ind, None)
-                self.lines[-1] = (ind, "%s = %d" % (rel, 100 + ln))
+                newval = 100 + ln
+                if tgt[2] == self.root_def and self.root != "int":
+                    newval = not self.root_initial
+                    self.lines[-1] = (ind, "%s = %s" % (rel, "true" if newval else "false"))
+                else:
+                    self.lines[-1] = (ind, "%s = %d" % (rel, newval))
                 if tgt[2] == self.root_def:
                     self.root_modified = True
                 if eff:
-                    self.data[tgt[2]] = 100 + ln
-                    self.effective_values.add(100 + ln)
+                    self.data[tgt[2]] = newval
+                    self.effective_values.add(newval)
                 if self.nblocks:
                     self.probe_in_or_after_block = True
                 self.feat.add("modification")
@@ -362,10 +383,16 @@ class Walk:
         self.feat.add("expression-condition")
         if self.root_def is None:
             raise Invalid("expression condition without v1")
-        cur = self.data[self.root_def]
+        unmodified = self.data[self.root_def] == self.root_initial
+        if self.root != "int":
+            if (self.root == "boolT") != (c == "P"):
+                raise Invalid("this condition has no bare-reference form in this variant")
+            self.bare_refs += 1
+            self.feat.add("bare-reference-condition")
+            return "{?%s}" % self.root_def, unmodified == (c == "P")
         if c == "P":
-            return '("{?%s} == 1")' % self.root_def, cur == 1
-        return '("{?%s} != 1")' % self.root_def, cur != 1
+            return '("{?%s} == 1")' % self.root_def, unmodified
+        return '("{?%s} != 1")' % self.root_def, not unmodified
 
     def _block(self, it, ind, gpath, visible, eff):
         _, clauses, end = it
